@@ -90,125 +90,23 @@ def run(ctx):
                  f"execution below decides the octet bound")
     # ---- BOUND-GENERAL: abstract execution on A^n . R ---------------------------
     _general(ctx, m, f, limit, sep, required=not shape_ok)
-    # ---- WHOLE-CHARS: fold on str, encode afterwards ------------------------
+    # ---- PHYS-MODEL: to_ical / from_ical of lines and line lists (E9) ------------
+    from .. import strmodel, treemodel
     ti = m.own_method("parser.Contentline.to_ical")
-    rets = [n for n in walk_no_nested(ti.node) if isinstance(n, ast.Return)]
-    env = SymEnv(ti.node)
-    okenc = False
-    for r in rets:
-        e = env.expand_at(r.value, r)
-        okenc = (isinstance(e, ast.Call) and isinstance(e.func, ast.Attribute)
-                 and e.func.attr == "encode"
-                 and isinstance(e.func.value, ast.Call)
-                 and isinstance(e.func.value.func, ast.Name)
-                 and e.func.value.func.id == "foldline"
-                 and is_param(e.func.value.args[0], ti.params[0]))
-    ctx.check(okenc and len(rets) == 1, "C06/WHOLE-CHARS", "encode after fold",
-              "Contentline.to_ical must fold the str and encode the result; "
-              "folding encoded bytes can split a multi-octet character",
-              ti.loc(), detail="foldline(self).encode(utf-8)")
-    envf = SymEnv(f.node)
-
-    def _str_base(n):
-        e = n.value
-        for _ in range(4):
-            if isinstance(e, ast.Name) and e.id == line_p:
-                return True
-            try:
-                e2 = envf.expand_at(e)
-            except Exception:
-                return False
-            if is_param(e2, line_p):
-                return True
-            if isinstance(e2, ast.Subscript):
-                e = e2.value
-                continue
-            return False
-        return False
-    byte_slices = [n for n in ast.walk(f.node) if isinstance(n, ast.Subscript)
-                   and isinstance(n.slice, ast.Slice) and not _str_base(n)]
-    ctx.check(not byte_slices, "C06/WHOLE-CHARS", "only the str line is sliced",
-              f"foldline slices `{dump(byte_slices[0]) if byte_slices else ''}`",
-              f.loc(), detail="no slicing of encoded data")
-    body = body_without_docstring(f.node)
-    asserts = [a for a in body if isinstance(a, ast.Assert)]
-    pre = any("'\\n' not in" in dump(a.test) or '"\\n" not in' in dump(a.test)
-              for a in asserts)
-    # precondition established by the only constructor
-    new = m.own_method("parser.Contentline.__new__")
-    guard_new = any(isinstance(a, ast.Assert) and "not in" in dump(a.test)
-                    and "\\n" in dump(a.test) for a in ast.walk(new.node)) or any(
-        isinstance(a, ast.If) and "\\n" in dump(a.test)
-        and any(isinstance(x, ast.Raise) for x in a.body) for a in ast.walk(new.node))
-    ctx.check(guard_new, "C06/UNFOLD", "no LF inside a content line",
-              "Contentline.__new__ no longer refuses a raw LF: a line feed "
-              "inside the line followed by a space would be removed by unfolding",
-              new.loc(), detail="checked before str.__new__")
-
+    strmodel.report(ctx, "C06/PHYS-MODEL", strmodel.explore_physical, strmodel.PHYS_LAWS,
+                    ti.loc(), 100, select=lambda law: law != "invariance")
+    # every line of a serialised component is such a Contentline (E7 on trees)
+    treemodel.report(ctx, "C06/EMIT", treemodel.explore_emit,
+                     "Component.to_ical emits Contentlines of Contentline.from_parts lines",
+                     m.func("cal.Component.content_lines").loc(), 200)
     # ---- UNFOLD -----------------------------------------------------------
     unfold_rule(ctx, "C06/UNFOLD", sep)
-    fi = m.own_method("parser.Contentline.from_ical")
-    subs = [c for c in ast.walk(fi.node) if isinstance(c, ast.Call)
-            and isinstance(c.func, ast.Attribute) and c.func.attr == "sub"
-            and isinstance(c.func.value, ast.Name) and c.func.value.id == "uFOLD"
-            and isinstance(c.args[0], ast.Constant) and c.args[0].value == ""]
-    ctx.check(len(subs) == 1, "C06/UNFOLD", "from_ical unfolds with uFOLD",
-              "Contentline.from_ical must remove folds with uFOLD.sub('', …)",
-              fi.loc(), detail="uFOLD.sub('', ical)")
-
-    # ---- EMIT ---------------------------------------------------------------
-    cls_to = m.own_method("parser.Contentlines.to_ical")
-    rets = [n for n in walk_no_nested(cls_to.node) if isinstance(n, ast.Return)]
-    good = False
-    for r in rets:
-        e = r.value
-        if isinstance(e, ast.BinOp) and isinstance(e.op, ast.Add) \
-                and isinstance(e.right, ast.Constant) and e.right.value == b"\r\n" \
-                and isinstance(e.left, ast.Call) \
-                and isinstance(e.left.func, ast.Attribute) \
-                and e.left.func.attr == "join" \
-                and isinstance(e.left.func.value, ast.Constant) \
-                and e.left.func.value.value == b"\r\n":
-            inner = e.left.args[0]
-            good = isinstance(inner, (ast.GeneratorExp, ast.ListComp)) and \
-                isinstance(inner.elt, ast.Call) and \
-                isinstance(inner.elt.func, ast.Attribute) and \
-                inner.elt.func.attr == "to_ical"
-    ctx.check(good and len(rets) == 1, "C06/EMIT", "CRLF join and terminator",
-              "Contentlines.to_ical must join line.to_ical() with CRLF and end "
-              "with CRLF", cls_to.loc(), detail="b'\\r\\n'.join(...) + b'\\r\\n'")
-    comp = m.cls("cal.Component")
-    ti_c = comp.methods.get("to_ical")
-    cl = comp.methods.get("content_lines")
-    if ti_c is None or cl is None:
-        raise AnalysisError("anchor vanished: Component.to_ical/content_lines")
-    envc = SymEnv(ti_c.node)
-    rets = [n for n in walk_no_nested(ti_c.node) if isinstance(n, ast.Return)]
-    good = False
-    for r in rets:
-        e = envc.expand_at(r.value, r)
-        good = (isinstance(e, ast.Call) and isinstance(e.func, ast.Attribute)
-                and e.func.attr == "to_ical" and isinstance(e.func.value, ast.Call)
-                and isinstance(e.func.value.func, ast.Attribute)
-                and e.func.value.func.attr == "content_lines")
-    ctx.check(good and len(rets) == 1, "C06/EMIT", "Component.to_ical path",
-              "Component.to_ical must emit through content_lines().to_ical()",
-              ti_c.loc(), detail="self.content_lines(sorted).to_ical()")
-    made = [c for c in ast.walk(cl.node) if isinstance(c, ast.Call)
-            and isinstance(c.func, ast.Name) and c.func.id == "Contentlines"]
-    app = [c for c in ast.walk(cl.node) if isinstance(c, ast.Call)
-           and isinstance(c.func, ast.Attribute) and c.func.attr == "append"]
-    via_cl = any(isinstance(c, ast.Call) and isinstance(c.func, ast.Attribute)
-                 and c.func.attr == "content_line" for c in ast.walk(cl.node))
-    ctx.check(bool(made) and via_cl, "C06/EMIT", "content_lines builds Contentline objects",
-              "every emitted line must be a Contentline (whose to_ical folds)",
-              cl.loc(), detail="Contentlines() of self.content_line(...)")
-    ctx.floor("C06/UNFOLD", 6)
-    ctx.floor("C06/BOUND-ASCII", 7)
+    ctx.floor("C06/UNFOLD", 5)
+    if shape_ok:
+        ctx.floor("C06/BOUND-ASCII", 7)
 
 
-
-
+# ---------------------------------------------------------------------------
 def _shape_rules(ctx, m, f, line_p, limit_p, sep_p, limit, sep, tail_octets):
     body = body_without_docstring(f.node)
     ascii_ret = None
